@@ -223,6 +223,16 @@ theorem C17_xml_short_ignored (L : Bool) (f : File) (s : Name)
   have : ¬ 256 ≤ f.head.length := by omega
   simp [isJacoco, this, bXml, bInfo, bGcno, bGcda, bProfdata, bProfraw]
 
+/-- Moving an info / xml / json / profile file elsewhere (another directory, another archive, a
+plain argument with its absolute path) keeps its artifact: for these extensions the class depends
+on the extension, the sniffed bytes and – for json – the file name only. -/
+theorem C17_repackaging_keeps_class (L : Bool) (f g : File) (s s' e : Name)
+    (hf : splitExt f.path = some (s, e)) (hg : splitExt g.path = some (s', e))
+    (he : e ≠ bGcno ∧ e ≠ bGcda) (hh : f.head = g.head)
+    (hb : baseName f.path = baseName g.path) : classify L f = classify L g := by
+  rw [classify_of_ext hf, classify_of_ext hg, hh, hb]
+  simp [he.1, he.2]
+
 /-- Path mapping: nothing is returned iff there is no linked-files-map.json; otherwise the content
 of one of them (so: THE content, when they all agree – in particular when there is one). -/
 theorem C17_mapping (o : Opts) (args : List Arg) (hw : WF args)
